@@ -21,8 +21,11 @@ FLOATS = [0.5, -2.25, 1e300, 5e-324, 0.1, 3.0, 123456.789, 1.7976931348623157e30
 TIMES = [("2012", "3", "31", "9", "21", "0", "0", "none"), ("2012", "3", "31", "9", "21", "0", "0", "0"),
          ("1999", "12", "31", "23", "59", "59", "999999", "330"), ("2024", "2", "29", "0", "0", "0", "500", "-480"),
          ("2012", "3", "31", "10", "21", "0", "0", "60"), ("1", "1", "1", "0", "0", "0", "0", "none")]
+# valid ones first (N_VALID_TIME_STRS of them); some with day <= 12 and day != month, where a day/month mix-up shows
 TIME_STRS = ["2012-03-31T09:21:00", "2012-03-31T09:21:00Z", "2011-11-16T16:05:00.123+01:00", "2000-01-01T00:00:00-05:30",
+             "2012-03-04T05:06:07", "2013-10-02T00:00:00+02:00",
              "abc", "not a date"]
+N_VALID_TIME_STRS = 6
 LANGS = ["en", "fr-CA", "x-klingon"]
 FOREIGN_DT = [("ex", "http://example.org/", "MyType"), ("zz", "http://zz.test/", "T"), ("xsd", "http://www.w3.org/2001/XMLSchema#", "token"),
               ("xsd", "http://www.w3.org/2001/XMLSchema#", "QName")]
@@ -219,8 +222,8 @@ class Gen:
         if r < 0.5:
             return ["time"] + list(rng.choice(TIMES))
         if r < 0.92:
-            return ["str", rng.choice(TIME_STRS[:4])]
-        return ["str", rng.choice(TIME_STRS[4:])]
+            return ["str", rng.choice(TIME_STRS[:N_VALID_TIME_STRS])]
+        return ["str", rng.choice(TIME_STRS[N_VALID_TIME_STRS:])]
 
     # ---------------------------------------------------------------- ops
     def op_new_doc(self):
@@ -577,6 +580,21 @@ def scoping_programs(export=("ExportJson", "ExportProvn")):
                 for e in export:
                     p.append([e, "0"])
                 out.append(p)
+                if rebinding or bundle_default:
+                    # a later sibling that declares nothing: its names resolve through the document, not through the
+                    # declarations of the bundle written before it
+                    q = [op for op in p if op[0] not in export]
+                    b2 = ["b", "0", "1"]
+                    q.append(["NewBundle", "0", ["S", "other:b2"]])
+                    q.append(["NewRecord", b2, "Entity", ["S", "ex:e2"], [[["S", "prov:type"], ["qn", "other", U3, "Kind"]], [["S", "ex:k"], ["qn", "ex", U1, "v2"]]]])
+                    q.append(["NewRecord", b2, "Agent", ["S", "ex:ag2"], []])
+                    q.append(["NewRecord", b2, "Attribution", "none",
+                              [[["Q", "prov", PROV, "entity"], ["str", "ex:e2"]], [["Q", "prov", PROV, "agent"], ["str", "ex:ag2"]]]])
+                    if doc_default:
+                        q.append(["NewRecord", b2, "Entity", ["S", "bare3"], []])
+                    for e in export:
+                        q.append([e, "0"])
+                    out.append(q)
     return out
 
 
